@@ -331,7 +331,8 @@ pub fn write_generic_diff_header_header_line(
 fn get_filename_from_marker_line(line: &str) -> Option<&str> {
     line.split('\t')
         .next()
-        .and_then(|column| column.split(' ').nth(1))
+        // everything after the "--- " / "+++ " marker: the path may contain spaces
+        .and_then(|column| column.split_once(' ').map(|(_, path)| path))
         .and_then(get_filename_from_diff_header_line_file_path)
 }
 
